@@ -137,6 +137,16 @@ func rMRZ(r *rand.Rand) MRZFields {
 			f.OptionalData2 = rword(r, alphaNum, 1, 11)
 		}
 	}
+	// optional data with inner fillers (a printed "AB CD 7"): one letter in four becomes a blank, never at either end
+	if len(f.OptionalData) >= 3 && r.Intn(3) == 0 {
+		b := []byte(f.OptionalData)
+		for i := 1; i < len(b)-1; i++ {
+			if r.Intn(4) == 0 && b[i-1] != ' ' {
+				b[i] = ' '
+			}
+		}
+		f.OptionalData = string(b)
+	}
 	return f
 }
 
